@@ -718,3 +718,65 @@ Proof.
       destruct (negb _ && _); cbn; lia. }
     destruct (d_bufnext s1) as [s2|] eqn:E1; inversion H; subst. pose proof (Hb _ _ H1 E1). lia.
 Qed.
+
+(* ---------- Total / FetchTotal do not disturb the iteration ---------- *)
+Definition m_core (s : mstate) := (m_buf s, m_cur s, m_last s, m_off s).
+
+Lemma m_total_core srv s k :
+  m_core (snd (fst (if k =? 0 then m_total srv s else m_fetch_total srv s))) = m_core s.
+Proof. unfold m_total, m_fetch_total. destruct (k =? 0); [destruct (m_got s)|]; reflexivity. Qed.
+
+Lemma m_do_calls_core srv calls n s :
+  m_core (snd (m_do_calls srv calls n s)) = m_core s.
+Proof.
+  unfold m_do_calls.
+  assert (forall acc, m_core (snd acc) = m_core s ->
+     m_core (snd (fold_left (fun acc c => let '(cs, qs, st) := acc in
+        if Nat.eqb (fst c) n then
+          let '(cnt, st', q) := if snd c =? 0 then m_total srv st else m_fetch_total srv st in
+          (cs ++ [cnt], qs ++ match q with Some o => [o] | None => [] end, st')
+        else acc) calls acc)) = m_core s) as H.
+  { induction calls as [|c calls IH]; intros acc Ha; [exact Ha|]. cbn [fold_left]. apply IH.
+    destruct acc as [[cs qs] st]. destruct (Nat.eqb (fst c) n); [|exact Ha].
+    pose proof (m_total_core srv st (snd c)) as Hc.
+    destruct (if snd c =? 0 then m_total srv st else m_fetch_total srv st) as [[cnt st'] q]. cbn in *. congruence. }
+  apply H. reflexivity.
+Qed.
+
+Lemma m_next_core srv limit s1 s2 :
+  m_core s1 = m_core s2 ->
+  fst (fst (m_next srv limit s1)) = fst (fst (m_next srv limit s2)) /\
+  snd (m_next srv limit s1) = snd (m_next srv limit s2) /\
+  m_core (snd (fst (m_next srv limit s1))) = m_core (snd (fst (m_next srv limit s2))) /\
+  m_value (snd (fst (m_next srv limit s1))) = m_value (snd (fst (m_next srv limit s2))).
+Proof.
+  destruct s1 as [b1 c1 l1 o1 n1 g1], s2 as [b2 c2 l2 o2 n2 g2]. unfold m_core; cbn. intros H; inversion H; subst.
+  unfold m_next, m_bufnext; cbn.
+  destruct (zlen b2 - 1 <=? c2); [|repeat split].
+  unfold m_apply; cbn. destruct l2; cbn.
+  - destruct (zlen b2 - 1 <=? c2); repeat split.
+  - destruct (sort_desc (mr_msgs (srv o2 limit))) as [|x xs]; cbn.
+    + destruct (zlen b2 - 1 <=? c2); repeat split.
+    + destruct (zlen (x :: xs) - 1 <=? -1); repeat split.
+Qed.
+
+Theorem m_iterate_t_yields srv limit calls : forall fuel n s1 s2,
+  m_core s1 = m_core s2 ->
+  let '(ys, _, _, _, fin) := m_iterate_t srv limit calls fuel n s1 in
+  ys = m_yield (m_iterate srv limit fuel s2) /\ fin = m_fin (m_iterate srv limit fuel s2).
+Proof.
+  induction fuel as [|f IH]; intros n s1 s2 Hc.
+  - cbn [m_iterate_t m_iterate]. destruct (m_do_calls srv calls n s1) as [[cs0 q0] s0]. split; reflexivity.
+  - cbn [m_iterate_t m_iterate].
+    pose proof (m_do_calls_core srv calls n s1) as Hd.
+    destruct (m_do_calls srv calls n s1) as [[cs0 q0] s0]. cbn [snd] in Hd.
+    destruct (m_next_core srv limit s0 s2 ltac:(congruence)) as (N1 & N2 & N3 & N4).
+    destruct (m_next srv limit s0) as [[b1 s1'] q1]. destruct (m_next srv limit s2) as [[b2 s2'] q2].
+    cbn [fst snd] in *. subst b2 q2. destruct b1.
+    + specialize (IH (S n) s1' s2' N3).
+      destruct (m_iterate_t srv limit calls f (S n) s1') as [[[[ys os] cs] sf] fin].
+      destruct (m_iterate srv limit f s2') as [[[ys2 os2] sf2] fin2].
+      unfold m_yield, m_fin in *. cbn [fst snd] in *. destruct IH as [-> ->]. rewrite N4. split; reflexivity.
+    + match goal with |- context [fold_left ?F calls ?A] => destruct (fold_left F calls A) as [[cs1 q1'] s1''] end.
+      unfold m_yield, m_fin. cbn. split; reflexivity.
+Qed.
